@@ -950,6 +950,12 @@ func TestC08CasterBuffered(t *testing.T) {
 		var trace []string
 		trace = append(trace, fmt.Sprintf("cap=%d", capacity))
 		vkit.CaseStart(func() string { return strings.Join(trace, " ; ") })
+		// one case in four: a buffer SMALLER than the audience. The Send parks on the full buffer; receivers are then
+		// deregistered in bulk (each deregistration absorbs one copy, waiting for it if need be) and the rest receive.
+		if huge == 0 && rapid.IntRange(0, 3).Draw(t, "smallBuffer") == 0 {
+			c08SmallBuffer(t, st)
+			return
+		}
 		rapid.SyncTest(t, func(t *rapid.T) {
 			ch := make(chan int, capacity)
 			x := bigbuff.NewChanCaster(ch)
@@ -1037,4 +1043,88 @@ func TestC08CasterBuffered(t *testing.T) {
 			st.Case(trace, racing, fmt.Sprintf("cap:%d", capacity))
 		})
 	})
+}
+
+
+func c08SmallBuffer(t *rapid.T, st *vkit.Stats) {
+	capacity := rapid.IntRange(1, 3).Draw(t, "smallCap")
+	n := rapid.IntRange(capacity+1, capacity+6).Draw(t, "audience")
+	// deregistrations after the Send has parked: sizes of the bulk Adds, together at most n
+	var deregs []int
+	left := n
+	for left > 0 && rapid.IntRange(0, 2).Draw(t, "moreDereg") != 0 {
+		d := rapid.IntRange(1, left).Draw(t, "dereg")
+		deregs = append(deregs, d)
+		left -= d
+	}
+	recvFirst := rapid.IntRange(0, left).Draw(t, "receiveBeforeDereg")
+	trace := []string{fmt.Sprintf("small buffer: cap=%d audience=%d receiveFirst=%d deregs=%v", capacity, n, recvFirst, deregs)}
+	vkit.CaseStart(func() string { return trace[0] })
+	rapid.SyncTest(t, func(t *rapid.T) {
+		ch := make(chan int, capacity)
+		x := bigbuff.NewChanCaster(ch)
+		if got := x.Add(n); got != n {
+			vkit.Fail(t, "C08/add-count", "Add(%d) returned %d\ncase: %v", n, got, trace)
+		}
+		send := vkit.Launch("Send", func() any { return x.Send(42) })
+		synctest.Wait()
+		if send.Finished() {
+			vkit.Fail(t, "C08/send-early", "Send returned %v / panic %v with %d receivers registered and room for %d copies only\ncase: %v", send.Res, send.Panic, n, capacity, trace)
+		}
+		received := 0
+		take := func(k int, when string) {
+			for i := 0; i < k; i++ {
+				synctest.Wait()
+				select {
+				case v := <-ch:
+					if v != 42 {
+						vkit.Fail(t, "C08/wrong-value", "a receiver got %d\ncase: %v", v, trace)
+					}
+					received++
+				default:
+					vkit.Fail(t, "C08/receiver-starved", "%s: no copy available for receiver %d of %d although the Send is in flight and owes it one\ncase: %v", when, received+1, left, trace)
+				}
+			}
+		}
+		take(recvFirst, "before the deregistrations")
+		absorbed := 0
+		for _, d := range deregs {
+			if received+absorbed >= n-capacity {
+				// the Send has queued its last copy and returned: the receivers that are left have their copy waiting
+				// in the buffer and must take it (deregistering now would be an unbalanced Add)
+				left += d
+				continue
+			}
+			op := vkit.Launch("Add(-)", func() any { return x.Add(-d) })
+			synctest.Wait()
+			if !op.Finished() {
+				vkit.Fail(t, "C08/dereg-hang", "Add(%d) during the Send is still blocked at quiescence (it absorbs %d copies the Send is ready to hand over)\ncase: %v", -d, d, trace)
+			}
+			if op.Panic != nil {
+				vkit.Fail(t, "C08/add-panic", "Add(%d) during the Send panicked: %v\ncase: %v", -d, op.Panic, trace)
+			}
+			absorbed += d
+			if want := n - absorbed; op.Res.(int) != want {
+				vkit.Fail(t, "C08/add-count", "Add(%d) during the Send returned %v, expected %d\ncase: %v", -d, op.Res, want, trace)
+			}
+		}
+		take(n-absorbed-received, "after the deregistrations")
+		synctest.Wait()
+		if !send.Finished() {
+			vkit.Fail(t, "C08/send-hang", "Send still blocked although %d receivers received and %d were deregistered (registered at its start: %d)\ncase: %v", received, absorbed, n, trace)
+		}
+		if send.Panic != nil {
+			vkit.Fail(t, "C08/send-panic", "Send panicked: %v\ncase: %v", send.Panic, trace)
+		}
+		if send.Res.(int) != received || received+absorbed != n {
+			vkit.Fail(t, "C08/send-count", "Send returned %v; %d receivers received, %d deregistered, %d were registered when it started\ncase: %v", send.Res, received, absorbed, n, trace)
+		}
+		if len(ch) != 0 {
+			vkit.Fail(t, "C08/buffered-copies", "%d stale copies are left in the channel after the Send returned\ncase: %v", len(ch), trace)
+		}
+		if c := x.Add(0); c != 0 {
+			vkit.Fail(t, "C08/count-after-send", "Add(0)=%d after the Send returned\ncase: %v", c, trace)
+		}
+	})
+	st.Case(trace, len(deregs) > 0, "small-buffer")
 }
